@@ -6,7 +6,8 @@ import json, os, re
 from collections import Counter
 
 HARNESSES = [("http", ["http/zz_verif_c04_test.go"], "c04http"),
-             ("http/tokenV2", ["http/tokenV2/zz_verif_c17_test.go", "http/tokenV2/zz_verif_export.go"], "c04tok")]
+             ("http/tokenV2", ["http/tokenV2/zz_verif_c17_test.go", "http/tokenV2/zz_verif_export.go"], "c04tok"),
+             ("http/cmd", ["http/cmd/zz_verif_c04cfg_test.go"], "c04cfg")]
 PKG, HARNESS = HARNESSES[0][0], HARNESSES[0][1]
 
 INTERNAL_BINDS = {"internal", "status", "metrics", "health"}
@@ -63,7 +64,7 @@ def target_form(show):
 def run(ctx):
     facts = ctx.facts()
     ctx._c04_facts = facts or {}
-    thms = ctx.build_and_audit(["NutsProofs.Props.C04", "NutsProofs.Props.C04L", "NutsProofs.Props.C04J"])
+    thms = ctx.build_and_audit(["NutsProofs.Props.C04", "NutsProofs.Props.C04L", "NutsProofs.Props.C04J", "NutsProofs.Props.C04C"])
     required = ["no_bypass", "granted_sound", "denied_is_401_no_effect", "denied_guarded_runs_nothing", "internal_never_public",
                 "same_address_shared", "configured_binds", "requestURI_selector_admits_bypass", "requestURI_selector_admits_query_bypass",
                 "without_exp_check_zero_exp_never_expires", "atLeastOne_rule_admits_two_signatures",
@@ -79,7 +80,11 @@ def run(ctx):
                 "limiter_refines_guard", "limiter_transparent_with_budget", "no_bypass_limited", "budget_spent_le_granted",
                 "anonymous_history_cannot_drain", "limiter_enabled_iff",
                 "fact_jti_check", "fact_uuid_module_version", "fact_rsa_strength_is_modulus_bit_length", "jti_accepted_shapes",
-                "uuid_with_extra_text_rejected", "byte_rounded_strength_rule_admits_weak_keys"]
+                "uuid_with_extra_text_rejected", "byte_rounded_strength_rule_admits_weak_keys",
+                # configuration text -> policy
+                "fact_config_load_order", "fact_env_constants", "fact_env_key_and_flag_load", "fact_http_flags_match_config_tags", "fact_auth_config_keys",
+                "command_line_wins", "environment_beats_file", "unmentioned_key_is_empty", "policy_no_auth_only_if_type_is_empty",
+                "token_auth_on_the_command_line_is_enforced", "config_text_to_no_bypass"]
     for r in required:
         if not any(t.endswith("Props." + r) for t in thms):
             ctx.oblige("thm-present:" + r, False, "theorem missing or its module does not build")
@@ -102,7 +107,7 @@ def run(ctx):
     replay_kind = None
     if ctx.replay:
         txt = open(ctx.replay).read()
-        replay_kind = "tok" if '"apitoken"' in txt else "http"
+        replay_kind = "tok" if '"apitoken"' in txt else ("cfg" if '"cfgload"' in txt else "http")
 
     # ------------------------------------------------------------------ (1) raw TCP against the real engine
     total_lines = total_bad = 0
@@ -149,6 +154,27 @@ def run(ctx):
                 total_lines += n
                 total_bad += bad
                 dist["token"] = d
+                distinct |= dn
+
+    # ------------------------------------------------------------------ (3) configuration text -> http.Config -> Configure
+    if replay_kind in (None, "cfg"):
+        binary = ctx.go_test_binary(*HARNESSES[2])
+        if binary is None:
+            ctx.oblige("harness-builds:http/cmd", False, ctx.harness_error[-1500:])
+        else:
+            ctx.oblige("harness-builds:http/cmd", True)
+            env = {}
+            if ctx.replay:
+                env["VERIF_REPLAY"] = os.path.abspath(ctx.replay)
+            rc, log, out = ctx.run_harness(binary, "TestVerifC04Cfg", env, outdir=os.path.join(ctx.scratch, "out-cfg"), timeout=1500)
+            if rc != 0:
+                ctx.oblige("harness-runs:http/cmd", False, log[-1500:])
+            else:
+                ctx.oblige("harness-runs:http/cmd", True)
+                n, bad, d, dn = config_part(ctx, out, facts or {})
+                total_lines += n
+                total_bad += bad
+                dist["config"] = d
                 distinct |= dn
 
     ctx.cov["evaluations"] = total_lines
@@ -300,7 +326,8 @@ def http_part(ctx, out):
                     if sig not in seen_sig:
                         seen_sig.add(sig)
                         ctx.violation(sig, f"request #{lim_good[op['eng']]} with a valid credential on engine {op['eng']} ({op['m']} {op.get('show')}) was refused 429: "
-                                      "the rate limiter's budget of 30 was used up by requests that failed authentication (a failure must have no side effect)",
+                                      "fewer than 30 requests with a valid credential were served before it, so the limiter's budget (burst 30) was spent on requests that failed "
+                                      "authentication (a failure must have no side effect) or is smaller than the documented burst",
                                       "limiter-budget-used-by-failed-requests.jsonl", "\n".join(lim_legs[op["eng"]]))
 
         def report(kind, what):
@@ -429,6 +456,75 @@ def token_part(ctx, out):
     ctx.oblige("non-vacuous:some-valid-token-granted(impl)", ctx.replay is not None or results["granted"] > 0, str(dict(results)))
     correspondence(ctx, "tokenV2", impl, model, bad, ops, o_bad)
     return len(impl), len(bad), {"variants": len(impl), "classes": dict(classes), "results": dict(results), "uuid_grammar_differential": n_uuid}, distinct
+
+
+def _env_value(raw):
+    """core.loadFromEnv: split on commas not escaped by a backslash, trim; one piece = scalar, more = list (None here)"""
+    parts = [p.replace("\x00", ",").strip() for p in raw.replace("\\,", "\x00").split(",")]
+    return parts[0] if len(parts) == 1 else None
+
+
+def _effective(op, key, defaults):
+    """value that wins for `key`: command line, environment, file, flag default; (value, source); value None = a list"""
+    for k, v in op.get("flags") or []:
+        if k == key:
+            return v, "flag"
+    for name, v in op.get("env") or []:
+        if name.startswith("NUTS_") and name[len("NUTS_"):].lower().replace("_", ".") == key:
+            return _env_value(v), "env"
+    if op.get("hasfile"):
+        for leaf in op.get("file") or []:
+            if leaf["k"] == key:
+                return (leaf["s"], "file") if "s" in leaf else (None, "file")
+    if key in defaults:
+        return defaults[key], "default"
+    return "", "absent"
+
+
+def config_part(ctx, out, facts):
+    ops_p, impl_p, model_p = (os.path.join(out, x) for x in ("ops.jsonl", "impl.out", "model.out"))
+    ok, err = ctx.model("C04", ops_p, model_p)
+    ctx.oblige("model-driver-runs:http/cmd", ok, err[-500:])
+    impl, model, bad = ctx.compare(impl_p, model_p)
+    ops = ctx.read_lines(ops_p)
+    defaults = {f[0]: f[2] for f in facts.get("httpFlags", []) if not str(f[2]).startswith("=")}
+    winners, outcomes = Counter(), Counter()
+    distinct = set()
+    seen = set()
+    o_bad = 0
+    for i, line in enumerate(impl):
+        if i >= len(ops) or not ops[i]:
+            continue
+        op = json.loads(ops[i])
+        if op.get("op") != "cfgload":
+            continue
+        typ, src = _effective(op, "http.internal.auth.type", defaults)
+        keys, _ = _effective(op, "http.internal.auth.authorizedkeyspath", defaults)
+        winners[src] += 1
+        fields = dict(kv.split("=", 1) for kv in line.split(" ")) if line.startswith("type=") else {}
+        outcomes[line.split(" ")[-1] if fields else line] += 1
+        distinct.add(("cfg", src, typ, line.split(" ")[-1]))
+        got_type = bytes.fromhex(fields["type"]).decode("latin-1") if fields else None
+        what = None
+        # O10 the internal interface is left WITHOUT authentication only when the value that wins the precedence
+        # (command line > environment > file > default) for http.internal.auth.type is the empty string
+        if fields and fields.get("configure") == "ok" and typ not in ("", "token_v2"):
+            what = f"Configure succeeded although the winning value of http.internal.auth.type ({src}) is {typ!r}: neither token_v2 nor empty"
+        elif fields and typ is not None and got_type != typ:
+            what = f"the engine's auth type is {got_type!r} but the winning source ({src}) says {typ!r}"
+        elif fields and fields.get("configure") == "ok" and typ == "token_v2" and keys not in (op.get("okpaths") or []):
+            what = f"Configure succeeded with token_v2 although the winning authorized_keys path {keys!r} is not a usable file"
+        elif typ is None and fields:
+            what = f"a list value for http.internal.auth.type ({src}) was accepted: type={got_type!r}"
+        if what:
+            o_bad += 1
+            sig = "C04:config:auth-setting-not-enforced"
+            if sig not in seen:
+                seen.add(sig)
+                ctx.violation(sig, what + f" -> {line[:160]}", "config-auth-setting-not-enforced.jsonl", ops[i])
+    ctx.oblige("oracle:winning-auth-setting-is-enforced-or-startup-fails(impl)", o_bad == 0, f"{o_bad} configurations")
+    correspondence(ctx, "http/cmd", impl, model, bad, ops, o_bad)
+    return len(impl), len(bad), {"configurations": len(impl), "auth_type_decided_by": dict(winners), "outcomes": dict(outcomes)}, distinct
 
 
 def correspondence(ctx, name, impl, model, bad, ops, oracle_bad):
